@@ -9,11 +9,11 @@ HOOKS = {
 }
 
 ENGINES_DOC = [
-    {"name": "spec", "path": "spec/", "serves_properties": ["C01", "C02", "C03", "C04", "C07", "C08", "C09", "C17", "C18", "C20", "C05", "C06", "C10", "C11", "C12", "C13", "C14", "C15", "C16"],
+    {"name": "spec", "path": "spec/", "serves_properties": ["C01", "C02", "C03", "C04", "C07", "C08", "C09", "C17", "C18", "C19", "C20", "C05", "C06", "C10", "C11", "C12", "C13", "C14", "C15", "C16"],
      "kind_free_text": "TLA+ modules (single source of truth) checked with TLC"},
-    {"name": "harness", "path": "harness/", "serves_properties": ["C01", "C02", "C03", "C04", "C07", "C08", "C09", "C17", "C18", "C20", "C05", "C06", "C10", "C11", "C12", "C13", "C14", "C15", "C16"],
+    {"name": "harness", "path": "harness/", "serves_properties": ["C01", "C02", "C03", "C04", "C07", "C08", "C09", "C17", "C18", "C19", "C20", "C05", "C06", "C10", "C11", "C12", "C13", "C14", "C15", "C16"],
      "kind_free_text": "Rust conformance harness: replays TLC-generated behaviours on the real code, records traces/rows for TLC to judge"},
-    {"name": "orchestrator", "path": "bin/check", "serves_properties": ["C01", "C02", "C03", "C04", "C07", "C08", "C09", "C17", "C18", "C20", "C05", "C06", "C10", "C11", "C12", "C13", "C14", "C15", "C16"],
+    {"name": "orchestrator", "path": "bin/check", "serves_properties": ["C01", "C02", "C03", "C04", "C07", "C08", "C09", "C17", "C18", "C19", "C20", "C05", "C06", "C10", "C11", "C12", "C13", "C14", "C15", "C16"],
      "kind_free_text": "python3 driver: build, TLC, replay/validation, evidence, exit code"},
 ]
 
@@ -181,7 +181,14 @@ CHECKS.update({
     },
 })
 
-NOT_APPLICABLE = [
-    {"property_id": p, "reason": "check under construction in this round (see DESIGN.md 6, construction order); not yet claimed"}
-    for p in ["C19"]
-]
+CHECKS.update({
+    "C19": {
+        "engine": "spec",
+        "text": "Lists.tla renders abstract channel / numeric lists and states the entries an iterator must yield and, for each single corruption the property lists (leading comma, doubled comma, missing separator, range ends of different dimension, third range end, foreign character), after how many entries the error must surface; TLC enumerates every list of <= 3 entries over ~10 entry templates with every applicable corruption (~35k lists), replayed on ChannelList / NumericList; every yielded spec is also viewed through the dimension iterator, dimension()/len() and all tuple conversions.",
+        "design_ref": "DESIGN.md 3 C19",
+        "note": "Iterators are driven directly; for a third range end the a:b part may or may not be yielded before the error.",
+        "technique": "TLA+ grammar/denotation specification; TLC enumerates lists and corruptions with expected entries, replayed on the iterators",
+    },
+})
+
+NOT_APPLICABLE = []
